@@ -25,7 +25,7 @@ func init() {
 	register("C13", func(e *Env) {
 		renderPrelude()
 		e.perShard = 40
-		e.rep.Rule = "templates covering every construct (the evaluator battery + hash literals with duplicate keys and side-effecting values + generated loop/scope/function programs) x histories: fresh parse, repeated Exec of one parsed template, Clone, Parse with the cache off / cold / warm, interleaved over several templates; data of distinct Go types with the same printed type name rendered alternately; every result (output or error text) of one (template, data) pair must be identical, and the parsed program (deep structural dump through the verif hook) must be unchanged by every Exec; the single model answer is compared too; distinct by template"
+		e.rep.Rule = "templates covering every construct (the evaluator battery + hash literals with duplicate keys and side-effecting values + generated loop/scope/function programs) x histories: fresh parse, repeated Exec of one parsed template, Clone, Parse with the cache off / cold / warm, interleaved over several templates; data of distinct Go types with the same printed type name rendered alternately; pure templates evaluated twice within one render (loop body, function called twice, block rendered twice); every result (output or error text) of one (template, data) pair must be identical, and the parsed program (deep structural dump through the verif hook) must be unchanged by every Exec; the single model answer is compared too; distinct by template"
 		reps := 6
 		if e.Thorough() {
 			reps = 40
@@ -139,6 +139,37 @@ func init() {
 			for i := range results {
 				if results[i] != results[0] {
 					e.Violate("c13-nondeterministic", fmt.Sprintf("%q: %s gave %q but %s gave %q", src, labels[0], results[0], labels[i], results[i]), map[string]interface{}{"tmpl": src, "results": results[:i+1], "labels": labels[:i+1]})
+					break
+				}
+			}
+		}
+		// the same code evaluated twice within one render (in a loop body, in a function called twice,
+		// in a block helper that renders its block twice) gives twice the single result, for templates
+		// that neither bind nor count anything
+		for _, src := range tmpls {
+			impure := false
+			for _, w := range []string{"let ", " = ", "contentFor", "cnt", "rec", "return", "break", "continue", "fail", "blk2", "h[", "a["} {
+				impure = impure || strings.Contains(src, w)
+			}
+			if impure {
+				continue
+			}
+			one := runRender(RCase{Tmpl: src, Binds: stdBinds(), Parts: stdParts})
+			if one.Class != "OK" {
+				continue
+			}
+			for _, w := range []struct{ name, pre, post, wpre, wmid, wpost string }{
+				{"loop", "<%= for (zz9) in [1, 2] { %>", "<% } %>", "", "", ""},
+				{"fn", "<% let ff9 = fn() { %>", "<% } %><%= ff9() %><%= ff9() %>", "", "", ""},
+				{"blk2", "<%= blk2() { %>", "<% } %>", "", "|", ""},
+				{"nested-loop", "<%= for (zz8) in [1] { %><%= for (zz9) in [1, 2] { %>", "<% } %><% } %>", "", "", ""},
+			} {
+				o := runRender(RCase{Tmpl: w.pre + src + w.post, Binds: stdBinds(), Parts: stdParts})
+				e.rep.Evaluations++
+				e.Count("twice-in-one-render/" + w.name)
+				want := w.wpre + one.Out + w.wmid + one.Out + w.wpost
+				if o.Class != "OK" || o.Out != want {
+					e.Violate("c13-nondeterministic", fmt.Sprintf("%q evaluated twice in one render (%s) gave %q (%s %s), twice the single result is %q", src, w.name, o.Out, o.Class, o.Msg, want), map[string]interface{}{"tmpl": w.pre + src + w.post, "observed": o})
 					break
 				}
 			}
